@@ -314,7 +314,8 @@ func parseBlock(nativeBlock *hclsyntax.Block, from, leadComments, lineComments, 
 		children.AppendNode(in)
 	}
 
-	_, labelsNode, from := parseBlockLabels(nativeBlock, from)
+	beforeLabels, labelsNode, from := parseBlockLabels(nativeBlock, from)
+	children.AppendUnstructuredTokens(beforeLabels.Tokens())
 	block.labels = labelsNode
 	children.AppendNode(labelsNode)
 
